@@ -63,6 +63,7 @@ add_hybrid = op('add_hybrid', pe=st.integers(1, 4), mbr_id=st.one_of(NONE, st.in
                 pt=st.one_of(NONE, st.sampled_from([0, 0x17, 0x83, 0xef])), mac=st.sampled_from([False, False, True]),
                 efi=st.sampled_from([None, None, True, False]))
 rm_hybrid = op('rm_hybrid')
+bad = op('bad', w=st.integers(0, 200), i=I, to=I, len=st.sampled_from([0, 5, 2048, 70]), bit=st.booleans(), sz=SZ, rsz=st.integers(0, 3), usz=st.integers(0, 2), lead=I, salt=I)
 
 
 def finish(cfg, ops, avoid=True):
